@@ -9,7 +9,7 @@ open Gsd Gsd.AList
 /-- **Obligation on the source's operators.**  With the operators `factgen` found in `isExpired`, the
 model's test is `i ≠ 0 ∧ now − ts > i`.  A changed operator in the source makes this proof fail. -/
 theorem isExpired_iff (i now ts : Int) : isExpired i now ts = true ↔ (i ≠ 0 ∧ now - ts > i) := by
-  simp [isExpired, Facts.ops_isExpired, cmpOp]
+  simp [isExpired, Facts.rel_isExpired, relCmp, cmpOp]
 
 theorem isExpired_false_iff (i now ts : Int) : isExpired i now ts = false ↔ ¬ (i ≠ 0 ∧ now - ts > i) := by
   rw [← isExpired_iff]; simp
